@@ -498,6 +498,36 @@ let run_txt kind t =
      | None -> "E"
      | Some m -> "t." ^ enc (to_text m))
   | _ -> failwith "txt"
+let dump_str m =
+  let out = List.concat_map (fun (sec, ds) ->
+      List.map (fun d -> Printf.sprintf "%s^%s^%s^%s" (implode sec) (enc d.ad_key) (enc d.ad_value)
+                   (enc_rule d.ad_tokens)) ds) m in
+  if out = [] then "-" else String.concat "+" out
+let run_txt2 kind t1 t2opt =
+  let a = model_of_text (dec t1) in
+  let t2 = match kind, t2opt with
+    | "mdl2", Some t2 -> Some (dec t2)
+    | _ -> (match a with Some m -> Some (to_text m) | None -> None) in
+  let b = match t2 with Some t -> (match model_of_text t with Some m -> dump_str m | None -> "E") | None -> "E" in
+  (match a with Some m -> dump_str m | None -> "E") ^ " ## " ^ b
+(* a dump back into (key, value, tokens) triples for the extracted c16_model_equiv *)
+let parse_dump (s : string) =
+  if s = "-" then [] else
+    List.map (fun e -> match String.split_on_char '^' e with
+        | [_; k; v; toks] -> ((dec k, dec v), (if toks = "!" then [] else List.map dec (String.split_on_char ',' toks)))
+        | _ -> failwith "dump") (String.split_on_char '+' s)
+let rule_of_out0 o = if o = "!" then [] else List.map dec (String.split_on_char ',' o)
+let pred_txt toks impl =
+  if impl = "PANIC" || impl = "HANG" || impl = "ABORT" then "0" else
+  match toks with
+  | ["csvx"; _; expected] ->
+    let exp = rule_of_out0 expected in
+    b01 (c16_csv_pred exp (if impl = "N" then None else Some (rule_of_out0 impl)))
+  | ["mdl2"; _; _] | ["tt"; _] ->
+    (match Str.bounded_split (Str.regexp_string " ## ") impl 2 with
+     | [a; b] when a <> "E" && b <> "E" -> b01 (c16_model_equiv (parse_dump a) (parse_dump b))
+     | _ -> "0")
+  | _ -> "1"   (* totality stream: parsed or rejected, never a panic *)
 
 (* ---------- engine: file save under an injected write failure (C10) ---------- *)
 let save_text_len (lines : char list list list) : int =
@@ -1060,6 +1090,9 @@ let run_case (line : string) (toks : string list) : string =
   | ["savecrash"; o; n; k] -> run_savecrash o n k
   | "stress" :: _ -> "ok"   (* serial oracle: every concurrent decision is a serial one, all threads finish *)
   | [("csv" | "esc" | "rmc" | "csvf" | "ini" | "mdl" | "totext") as kind; t] -> run_txt kind t
+  | ["csvx"; t; _] -> run_txt "csv" t
+  | ["mdl2"; t1; t2] -> run_txt2 "mdl2" t1 (Some t2)
+  | ["tt"; t1] -> run_txt2 "tt" t1 None
   | _ -> "?unknown-case"
 
 let pred_case (line : string) (toks : string list) (impl : string) : string =
@@ -1075,6 +1108,7 @@ let pred_case (line : string) (toks : string list) (impl : string) : string =
       | Some _ -> "ok" | None -> "PANIC" in
     b01 (impl = exp)
   | ["rm"; maxd; ops; qs] -> (try b01 (pred_rm maxd ops qs impl) with _ -> "0")
+  | ("csv" | "csvx" | "esc" | "rmc" | "csvf" | "ini" | "mdl" | "totext" | "mdl2" | "tt") :: _ -> pred_txt toks impl
   | ["twin"; _; _; _; _] ->
     (* C11: the cached enforcer's outputs equal the uncached twin's *)
     (match Str.bounded_split (Str.regexp_string " ## ") impl 2 with
